@@ -679,6 +679,37 @@ def _cases(rng, n):
                        for _ in range(rng.randint(0, 3)))
         k, v = call(qf.parse_frames, pay, None)
         out.append(("parse_frames", _b(pay), (".ok [" + ", ".join(_frame(f) for f in v) + "]") if k == "ok" else f".error .{v}"))
+        # checksums.py
+        cks = importlib.import_module("tlexport.checksums")
+        arr = rb(0, 9) if rng.random() < 0.7 else bytes([0xff]) * rng.randint(0, 9)
+        k, v = call(cks.ones_complement_checksum, bytearray(arr))
+        out.append(("ones_complement_checksum", _b(arr), f".ok {_b(v)}" if k == "ok" else f".error .{v}"))
+
+        class L4Obj:
+            def __init__(self, raw, csum):
+                self.raw, self.sum = raw, csum
+
+            def __len__(self):
+                return self.length
+
+            def __bytes__(self):
+                return self.raw
+        for l4, off in (("udp", 6), ("tcp", 16)):
+            v6 = rng.random() < 0.4
+            alen = 16 if v6 else 4
+            seg = bytearray(rb(off + 2, off + 8))
+            src, dst, proto = rb(alen, alen), rb(alen, alen), rng.choice([6, 17, 17, 300])
+            right = int.from_bytes(cks.ones_complement_checksum(bytearray(
+                src + dst + (len(seg).to_bytes(4, "big") + b"\0\0\0" + bytes([proto % 256]) if v6 else b"\0" + bytes([proto % 256]) + len(seg).to_bytes(2, "big"))
+                + bytes(seg[:off]) + b"\0\0" + bytes(seg[off + 2:]))), "big")
+            csum = rng.choice([right, right, 0, 0xffff, rng.randrange(65536)])
+            seg[off:off + 2] = csum.to_bytes(2, "big")
+            obj = L4Obj(bytes(seg), csum)
+            obj.length = len(seg) if rng.random() < 0.9 else 70000
+            pk3 = NS(ipv6_packet=v6, ip_src=src, ip_dst=dst, ip=NS(p=proto), **{l4: obj})
+            k, v = call(getattr(cks, "calculate_checksum_" + l4), pk3)
+            out.append(("calculate_checksum_" + l4, f"{_bool(v6)} {_b(src)} {_b(dst)} {proto} {obj.length} {_b(bytes(seg))} {csum}",
+                        f".ok {_bool(v)}" if k == "ok" else f".error .{v}"))
         # handle_alert / handle_tls_client_hello
         ver = rng.choice([None] + list(vers))
         me = NS(tls_version=ver, can_decrypt=rng.random() < 0.5, client_hello_seen=rng.random() < 0.5)
